@@ -183,6 +183,9 @@ def execute(scn):
                                                            "strain": st})
     c = mon.c
     c["update_calls"] = len(world.log)
+    c["env.pydrex_get_pathline"] = sum(1 for p_ in world.paths if p_._interp is not None)
+    c["env.pydrex_get_pathline_failed_fallback_static"] = sum(
+        1 for p_ in world.paths if p_.spec["kind"] == "pydrex_pathline" and p_._interp is None)
     fams = sorted({f.family for f in world.flows})
     stats = {
         "counters": c, "maxima": mon.maxima,
@@ -201,7 +204,7 @@ def shrink_candidates(scn):
     yield from generic_world_candidates(scn)
 
 
-RUNS = {"quick": 2500, "thorough": 100000}
+RUNS = {"quick": 2500, "thorough": 45000}
 RULE = ("one evaluation = one seeded world (non-identity starting F in 70% of minerals; constant "
         "non-commuting, time-periodic, position-dependent-along-a-moving-pathline and PyDRex's own "
         "simple-shear/cell flows; all accepted regimes; seeded partitions; bulk update_all histories "
@@ -219,7 +222,7 @@ COMPONENTS = {
 ASSUMPTIONS = ["the reference integrator (expm / DOP853 at 1e-11) is exact for the purpose of a 5e-3 bound",
                "independence of phase/fabric/regime/grain count is implied by every mineral's F being "
                "refined against the same reference within the bound"]
-PROBES = ["bulk_calls_checked", "split_vs_whole_checked", "calls_checked.posdep",
+PROBES = ["env.pydrex_get_pathline", "bulk_calls_checked", "split_vs_whole_checked", "calls_checked.posdep",
           "calls_checked.periodic", "calls_checked.pydrex_cell", "calls_checked.const"]
 
 
